@@ -738,6 +738,20 @@ int main(int argc, char **argv) {
         memset(s8, 'u', (size_t)len);
         in_server = 1; rfbSendServerCutTextUTF8(scr, s8, len, s8, len); in_server = 0;
         free(s8);
+      } else if (!strcmp(tok[1], "cursor") && n == 4) {
+        /* application behaviour: a (large) cursor shape; X cursor source + mask, the rich source is
+           derived by the library in the server's pixel format when a client asks for RichCursor */
+        int cw = atoi(tok[2]), ch = atoi(tok[3]), x, y; char *src, *msk; rfbCursorPtr c;
+        if (cw < 1 || ch < 1 || cw > 1024 || ch > 1024) { puts("bad-op"); goto next; }
+        src = (char *)malloc((size_t)cw * ch + 1); msk = (char *)malloc((size_t)cw * ch + 1);
+        for (y = 0; y < ch; y++) for (x = 0; x < cw; x++) {
+          src[y * cw + x] = ((x ^ y) & 1) ? 'x' : ' ';
+          msk[y * cw + x] = ((x + y) % 7) ? 'x' : ' ';
+        }
+        src[cw * ch] = msk[cw * ch] = 0;
+        c = rfbMakeXCursor(cw, ch, src, msk);
+        free(src); free(msk);
+        if (c) { c->xhot = cw / 2; c->yhot = ch / 2; in_server = 1; rfbSetCursor(scr, c); in_server = 0; }
       } else if (!strcmp(tok[1], "bell")) {
         in_server = 1; rfbSendBell(scr); in_server = 0;
       } else { puts("bad-op"); goto next; }
